@@ -183,6 +183,7 @@ KIND_SHEETS = [
     "@font-face { font-family: x; src: url(x.woff) format(\"woff\"), url(\"y z.ttf\"); unicode-range: U+0-7F, U+4??, U+26 }",
     ".i1 { margin: 10.5px !important; top: 0.5em ! important; left: 20.5% !IMPORTANT }",
     ".e1 { width: expression(1 + 2); height: expression(a > b ~ c) }",
+    ".p1 { a\\.b: 1; color: red; o\\x: 2; \\31 x: 3; -\\-y: 4 }",      # names whose normalised form needs escaping
 ]
 
 
@@ -205,7 +206,7 @@ def ns_sheets(full):
                 rule = "%s { %s }" % (sel, body)
                 if where:
                     rule = "@media print { %s }" % rule
-                if where and k % 4 == 0:          # two container rules deep
+                if where and body == "color: red" and sel in ("p|a", ":not(p|b)", "a[p|x]", "a"):   # two container rules deep
                     rule = "@media screen { %s }" % rule
                 out.append('%s@namespace p "http://p";\n@namespace q "http://q";\n%s' % (dflt, rule))
     return out
@@ -214,7 +215,7 @@ def ns_sheets(full):
 # ---- declaration blocks: every sequence (length <= 3, thorough 4) over two names x important or not x a comment, with
 # position-dependent values so that it is observable which duplicate survives and where the last semicolon goes
 DECL_ALPHABET = [("color", ""), ("color", " !important"), ("top", ""), ("top", " !important"), ("c\\olor", ""),
-                 ("/*c*/", None), ("foo", ""), ("a\\.b", "")]
+                 ("/*c*/", None), ("foo", "")]
 DECL_VALUES = {"color": ["red", "blue", "green", "black"], "top": ["0", "1px", "2px", "3px"],
                "c\\olor": ["red", "blue", "green", "black"], "foo": ["a", "b", "c", "d"],
                "a\\.b": ["1", "2", "3", "4"]}
@@ -1383,14 +1384,21 @@ def run(ctx):
                 skip_sheets.add(name if name not in ("gen", "corpus", "num", "ns", "decl", "hist") else str(t)[:60])
             else:
                 fails.append((t, job[1][i], v[1]))
-    reported = {}
+    reported, n_shrunk, n_known = {}, 0, 0
+
+    def sig_of(sheet_spec, prefs_):
+        return json.dumps({"prefs": sorted(prefs_), "sheet": sheet_spec if isinstance(sheet_spec, (str, list)) else
+                           sheet_spec.decode("latin-1")})
     for t, (pd, mini), what in fails:
-        k = klass(what) + "|" + "|".join(sorted(prefs_diff(pd) if not mini else ["minified"]))[:80]
-        if klass(what) in reported and len(reported) > 6:
+        # a failure that already matches an open finding as it stands is counted, not shrunk, and never hides others
+        if ctx.match_known(what + " :: " + sig_of(t, prefs_diff(pd) if not mini else dict(pd))):
+            n_known += 1
             continue
-        if k in reported:
+        k = klass(what) + "|" + "|".join(sorted(prefs_diff(pd) if not mini else ["minified"] + sorted(pd)))[:80]
+        if k in reported or n_shrunk >= 30:
             continue
         reported[k] = 1
+        n_shrunk += 1
         t2, pd2, mini2 = shrink_case(t, pd, mini, klass(what))
         v = e2e_one(t2, pd2, mini2)
         what2 = v[1] if v and v[0] == "fail" else what
@@ -1399,9 +1407,10 @@ def run(ctx):
         if wkey in reported:
             continue
         reported[wkey] = 1
-        ctx.violation(what2, {"sheet": t2s, "prefs": pd2, "minified": mini2},
-                      sig_text=json.dumps({"prefs": sorted(pd2), "sheet": t2s}))
-        if len(reported) >= 12:
+        if not ctx.violation(what2, {"sheet": t2s, "prefs": pd2, "minified": mini2}, sig_text=sig_of(t2s, pd2)):
+            del reported[k]          # it shrank to an open finding: another failure with this key may be a new one
+            n_known += 1
+        if len(ctx.violations) >= 8:
             break
 
     # -- stored witnesses of open findings are re-run so that KNOWN-FINDING lines are printed only while they reproduce
@@ -1455,6 +1464,7 @@ def run(ctx):
                     {"append_case": acases[-1]}, {"skipped_sheets": sorted(skip_sheets)[:8]}],
         "disagreements_checked": n_cmp if binary else 0,
         "oracle_wall_s": round(time.time() - t0, 1),
+        "oracle_failures_matching_open_findings": n_known,
         "trusted_base": TRUSTED,
     }, assumptions=ASSUME, search=search)
 
